@@ -317,6 +317,22 @@ class Interp:
                     self.purefun[name] = set(off_.t)
                     self.contents.setdefault("bytes", {})[name] = (w_[0], off_)
                     return Num(e)
+        if self.track_content and sv.content() is not None and not src_atom(sv.content()) and not (p["k"] == "cidx" and p.get("from_end")) \
+                and int_range(fr.body.ty(pl["ty"])) == (0, 255):
+            # a byte of a composed content (concatenated / patched): known when that position holds one known byte
+            if p["k"] == "cidx":
+                ix_ = Lin.const(p["off"])
+            else:
+                iv0 = st.cells.get(self.cell_of(fr, p["l"]))
+                ix_ = iv0.e if isinstance(iv0, Num) else None
+            if ix_ is not None:
+                from absint.models_content import segments, cut
+                segs = segments(st, sv.content(), sv.len)
+                part = cut(st, segs, ix_, ix_ + 1) if segs is not None else None
+                if part and len(part) == 1 and part[0][0] == "be" and part[0][1] == 1 and part[0][2] is not None:
+                    return Num(part[0][2])
+                if part and len(part) == 1 and part[0][0] == "zero":
+                    return Num(Lin.const(0))
         if len(sv.len.t) != 1 or sv.len.c != 0:
             return None
         (lv, k_), = sv.len.t.items()
@@ -470,6 +486,21 @@ class Interp:
                     self.record_write(st, sv, ix, ix + 1, "zero" if self.is_zero_value(st, val) else "data", val)
                 else:
                     self.record_write(st, sv, Lin.const(0), Lin.const(-1), "data")
+            if isinstance(sv, Seq) and sv.view is None and sv.src is not None and loc0[0] == "cell":
+                # an element store into a sequence whose bytes are described: the description is patched (known position and
+                # byte) or forgotten - it must never go stale
+                p_ = pl["p"][-1]
+                ixl = None
+                if p_["k"] == "cidx" and not p_.get("from_end"):
+                    ixl = Lin.const(p_["off"])
+                elif p_["k"] == "index":
+                    iv_ = st.cells.get(self.cell_of(fr, p_["l"]))
+                    ixl = iv_.e if isinstance(iv_, Num) and st.sys.const_value(iv_.e) is not None else None
+                nsrc = None
+                if ixl is not None and isinstance(val, Num) and int_range(fr.body.ty(pl["ty"])) == (0, 255):
+                    nsrc = ("patch", sv.src, ixl, ixl + 1, ("zero",) if self.is_zero_value(st, val) else ("be", 1, val.e))
+                sv = Seq(sv.len, sv.elem, sv.items, None, nsrc)
+                self.store(st, loc0[1], loc0[2], sv)
             if isinstance(sv, Seq) and len(sv.len.t) == 1:
                 lv_ = next(iter(sv.len.t))
                 gen = st.cells.get("ghost:gen:" + lv_)
@@ -758,9 +789,14 @@ class Interp:
                 # content mode: the quotient is a function of the dividend too - name it after it, so that `x / c` computed
                 # twice (two writers of the same value) is the same number
                 hx = hash_str("%r|%d" % (st.sys.reduce(ea), int(cb))) & 0xffffffffffff
-                q = Num(Lin.var("dq%x" % hx))
+                rn, qn = "rm%x" % hx, "rq%x_ghostq" % hx
+                r_ = Lin.var(rn)
+                q = Num(Lin.var(qn))
+                st.sys.add_range(r_, 0, int(cb) - 1)
                 st.sys.add_ge(q.e)
-                self.purefun["dq%x" % hx] = set(ea.t)
+                st.sys.add_eq(ea - q.e.scale(int(cb)) - r_)      # a = c*q + r: the quotient the remainder is defined with
+                self.ghosts[qn] = (ea, int(cb))
+                self.purefun[rn] = set(ea.t)
             else:
                 q = self.fresh_num(st, 0, None, "div")
             st.sys.add_le(q.e.scale(int(cb)), ea)
